@@ -9,7 +9,7 @@ from vf import gen, probes
 PID = "C05"
 ANCHORS = ["pyoma2.functions.plscf:pLSCF", "pyoma2.functions.plscf:rmfd2ac", "pyoma2.functions.plscf:ac2mp_poly", "pyoma2.functions.plscf:pLSCF_poles",
            "pyoma2.algorithms.plscf:pLSCF.run"]
-REQUIRED_MONITORS = ["coefficients@pLSCF", "poles-at-order-n@pLSCF_poles", "roots@rmfd2ac(every call)", "columns@pLSCF_poles(every call)",
+REQUIRED_MONITORS = ["history: other sign then again", "history: poles extracted twice", "coefficients@pLSCF", "poles-at-order-n@pLSCF_poles", "roots@rmfd2ac(every call)", "columns@pLSCF_poles(every call)",
                      "roots@rmfd2ac(inside pLSCF.run)", "columns@pLSCF_poles(inside pLSCF.run)"]
 ALL_STATES = ["sgn=-1", "sgn=+1", "ordmax=n", "ordmax>n", "some roots unstable", "all roots stable", "Nref<Nch", "Nref>Nch", "Nref=Nch", "n=1", "n>=6"]
 REQUIRED_STATES = ["sgn=-1", "sgn=+1", "ordmax=n", "ordmax>n", "some roots unstable", "Nref<Nch", "Nref>Nch", "n=1"]
@@ -178,6 +178,15 @@ def run_rational(ctx, rng):
         ordmax = n
         Ad, Bn = plscf.pLSCF(Sy, dt, ordmax, sgn_basf=sgn)
     ctx.check(np.array_equal(Sy, Syc), "inputs_modified", "pLSCF modified the spectral matrix")
+    # history in one process: the other basis sign on a spectrum of the same size, then this fit again - must reproduce itself
+    ctx.ev("history: other sign then again")
+    try:
+        plscf.pLSCF(np.conj(Sy), dt, ordmax, sgn_basf=-sgn)
+        Ad_again, Bn_again = plscf.pLSCF(Sy, dt, ordmax, sgn_basf=sgn)
+        same = all(np.allclose(a, b, rtol=1e-9, atol=1e-9 * np.max(np.abs(a))) for a, b in zip(Ad[:n], Ad_again[:n]))
+        ctx.check(same, "plscf:result_depends_on_call_history", f"pLSCF returns other coefficients after a call with the opposite basis sign (Nf={Nf}, order {n})")
+    except np.linalg.LinAlgError:
+        pass
     ctx.ev("coefficients@pLSCF")
     if not ctx.check(len(Ad) == ordmax and len(Bn) == ordmax and all(np.shape(Ad[i]) == (i + 2, Nch, Nch) and np.shape(Bn[i]) == (i + 2, Nref, Nch) for i in range(ordmax)),
                      "plscf:coefficient_shapes", lambda: f"coefficient lists {[np.shape(a) for a in Ad]} / {[np.shape(b) for b in Bn]}"):
@@ -212,6 +221,14 @@ def run_rational(ctx, rng):
         del rec[:]
         with probes.patched(plscf, "rmfd2ac", spy):
             out = plscf.pLSCF_poles(Ad, Bn, dt, "per", 1024)
+    # extracting the poles must not rewrite the model, and extracting twice gives the same tables
+    Ad_keep = [np.array(a, copy=True) for a in Ad]
+    out2 = plscf.pLSCF_poles(Ad, Bn, dt, "per", 1024)
+    ctx.ev("history: poles extracted twice")
+    ctx.check(all(np.array_equal(a, b) for a, b in zip(Ad, Ad_keep)) and all(np.array_equal(a, b, equal_nan=True) for a, b in zip(out, out2)),
+              "plscf:pole_extraction_rewrites_model", "pLSCF_poles modified the coefficient list it was given / a second extraction differs")
+    if sgn == -1:
+        ctx.check(np.allclose(Ad[n - 1][0], np.eye(Nch), atol=1e-12), "plscf:normalisation_lost", "A_0 is no longer the identity after pole extraction")
     for A_den, B_num, (A, C) in rec:
         if A_den.shape[0] - 1 <= n:  # over-parameterised orders of an exactly rational spectrum are arbitrary
             check_rmfd2ac(ctx, "roots@rmfd2ac(every call)", A_den, B_num, A, C)
